@@ -7,7 +7,7 @@ from checks.C07 import conds_for, ENCODED, FILES
 from checks.C03 import validate_translator
 import random
 
-RAISING_PROGS = [0, 1, 4, 7, 17, 22, 26, 28]
+RAISING_PROGS = [0, 1, 4, 7, 17, 22, 26, 28, 29, 33]
 
 
 def run(tier):
@@ -50,8 +50,8 @@ def run(tier):
                 nat = native_eval([case])
                 if nat[0]["yielded"] > 0:
                     import json, os
-                    from engine.driver import ROOT
-                    d = os.path.join(ROOT, "replays", "C02")
+                    from engine.driver import ROOT, OUT
+                    d = os.path.join(__import__("engine.driver").driver.OUT, "replays", "C02")
                     os.makedirs(d, exist_ok=True)
                     path = os.path.join(d, f"threshold_h{h}_r{r}.json")
                     json.dump({"kind": "script", "script": "harness/r_eval.py", "args": {"cases": [case]}, "observed": nat,
